@@ -536,4 +536,28 @@ Section WithBlockDecoder.
       else let '(s', r) := decodeHeader s false (ztake h src) in
            if r <? 0 then (s', mkI 0 (Some (d_fi s')) r false)
            else (s', mkI r (Some (d_fi s')) FD_BHSize false).
+
+  (* ---- sequences of API calls on one context ---- *)
+  Inductive dcall :=
+    | CDec (src : list byte) (cap : Z) (dict : option (list byte)) (o : dopts)   (* LZ4F_decompress / _usingDict *)
+    | CInfo (src : list byte)                                                    (* LZ4F_getFrameInfo *)
+    | CReset.                                                                    (* LZ4F_resetDecompressionContext *)
+  (* what the caller observes of one call *)
+  Record obs := mkObs { ob_consumed : Z; ob_produced : Z; ob_out : list byte; ob_ret : Z; ob_info : option finfo }.
+  Definition do_call (s : dstate) (c : dcall) : dstate * obs :=
+    match c with
+    | CDec src cap None o =>
+        let '(s', r) := decompress s src cap o in (s', mkObs (r_consumed r) (r_produced r) (r_out r) (r_ret r) None)
+    | CDec src cap (Some d) o =>
+        let '(s', r) := decompress_usingDict s src cap d o in (s', mkObs (r_consumed r) (r_produced r) (r_out r) (r_ret r) None)
+    | CInfo src =>
+        let '(s', r) := getFrameInfo s src in (s', mkObs (i_consumed r) 0 [] (i_ret r) (i_info r))
+    | CReset => (reset s, mkObs 0 0 [] 0 None)
+    end.
+  Fixpoint do_calls (s : dstate) (cs : list dcall) : dstate * list obs :=
+    match cs with
+    | [] => (s, [])
+    | c :: r => let '(s1, ob) := do_call s c in
+                let '(s2, obs') := do_calls s1 r in (s2, ob :: obs')
+    end.
 End WithBlockDecoder.
